@@ -1,6 +1,6 @@
 #!/bin/bash
 # usage: tools/seedrun.sh <patch.diff> <ID>...   applies the patch to /repo, runs the quick checks, reverts
-P="$1"; shift
+P="$(readlink -f "$1")"; shift
 cd /verif
 if ! git -C /repo diff --quiet; then echo "/repo is dirty"; exit 2; fi
 if ! git -C /repo apply --check "$P" 2>/dev/null; then echo "PATCH DOES NOT APPLY: $P"; exit 2; fi
